@@ -200,6 +200,11 @@ pub trait Check: Sync {
     fn exe_for_index(&self, _index: u64) -> Option<PathBuf> {
         None
     }
+    /// Targets of the Miri lane (/verif/harness-miri) that belong to this property; run in the
+    /// given tier after the shards. (processes, operations per process)
+    fn miri_lane(&self, _tier: Tier) -> Option<(Vec<&'static str>, usize, usize)> {
+        None
+    }
 }
 
 pub struct Opts {
@@ -425,7 +430,97 @@ pub fn run_parent(check: &dyn Check, o: &Opts) -> i32 {
     }
     merged.violations.extend(crash_violations);
     inconclusive.extend(merged.inconclusive.iter().cloned());
+    if let Some((targets, procs, ops)) = check.miri_lane(o.tier) {
+        run_miri_lane(id, o, &targets, procs, ops, &mut merged, &mut inconclusive);
+    }
     finish(check, o, merged, inconclusive, start.elapsed().as_secs_f64())
+}
+
+/// The UB-interpreter lane: the pure-Rust decoders / parsers run under `cargo +nightly miri run`
+/// in parallel processes. A Miri diagnostic (undefined behaviour, data race, leak of the target) or a
+/// panic inside a target is a violation; a lane that cannot be built or run is inconclusive.
+fn run_miri_lane(id: &str, o: &Opts, targets: &[&'static str], procs: usize, ops: usize, merged: &mut Report, inconclusive: &mut Vec<String>) {
+    let dir = runs_dir(id);
+    let manifest = format!("{VERIF_ROOT}/harness-miri/Cargo.toml");
+    let lock = format!("{VERIF_ROOT}/harness-miri/Cargo.lock");
+    if std::fs::metadata(&lock).is_err() || std::fs::metadata("/repo/Cargo.lock").and_then(|a| Ok(a.modified()? > std::fs::metadata(&lock)?.modified()?)).unwrap_or(false) {
+        let _ = std::fs::copy("/repo/Cargo.lock", &lock);
+    }
+    let cmd = |seed: u64, n: usize, target: &str| {
+        let mut c = std::process::Command::new("cargo");
+        c.args(["+nightly", "miri", "run", "--offline", "--quiet", "--manifest-path", &manifest, "--", &seed.to_string(), &n.to_string(), target]).env("CARGO_NET_OFFLINE", "true").env_remove("MIRIFLAGS");
+        c
+    };
+    // build (and smoke-run) once, then fan out
+    let t0 = Instant::now();
+    match cmd(0, 1, targets[0]).output() {
+        Ok(out) if out.status.success() && String::from_utf8_lossy(&out.stdout).contains("DONE") => {}
+        Ok(out) => {
+            let err = String::from_utf8_lossy(&out.stderr);
+            let tail: String = err.lines().rev().take(6).collect::<Vec<_>>().join(" | ");
+            inconclusive.push(format!("miri lane could not be built / started: {tail}"));
+            return;
+        }
+        Err(e) => {
+            inconclusive.push(format!("miri lane could not be started: {e}"));
+            return;
+        }
+    }
+    let mut children = vec![];
+    for p in 0..procs {
+        let target = targets[p % targets.len()];
+        let seed = h64(&(o.seed, id, "miri", p as u64));
+        let mut c = cmd(seed, ops, target);
+        let out_path = dir.join(format!("miri-{p}.out"));
+        let err_path = dir.join(format!("miri-{p}.err"));
+        c.stdout(std::fs::File::create(&out_path).expect("out")).stderr(std::fs::File::create(&err_path).expect("err"));
+        match c.spawn() {
+            Ok(ch) => children.push((p, target, seed, out_path, err_path, ch)),
+            Err(e) => inconclusive.push(format!("miri process {p}: {e}")),
+        }
+    }
+    let deadline = Duration::from_secs(3600);
+    for (p, target, seed, out_path, err_path, mut ch) in children {
+        let st = loop {
+            match ch.try_wait() {
+                Ok(Some(st)) => break Some(st),
+                Ok(None) if t0.elapsed() > deadline => {
+                    let _ = ch.kill();
+                    let _ = ch.wait();
+                    break None;
+                }
+                Ok(None) => std::thread::sleep(Duration::from_millis(100)),
+                Err(_) => break None,
+            }
+        };
+        let out = std::fs::read_to_string(&out_path).unwrap_or_default();
+        let err = std::fs::read_to_string(&err_path).unwrap_or_default();
+        let done = out.lines().find(|l| l.starts_with("DONE"));
+        for l in out.lines().filter(|l| l.starts_with("PANIC")) {
+            merged.violations.push(Violation { signature: format!("miri-lane-panic:{target}"), detail: l.chars().take(300).collect(), index: p as u64, witness: json!({"lane": "miri", "target": target, "seed": seed, "ops": ops}) });
+        }
+        match (st, done) {
+            (Some(s), Some(d)) if s.success() => {
+                let n: u64 = d.split("ops=").nth(1).and_then(|x| x.split_whitespace().next()).and_then(|x| x.parse().ok()).unwrap_or(0);
+                *merged.counters.entry("miri:operations-interpreted".into()).or_default() += n;
+                *merged.counters.entry(format!("miri:ops:{target}")).or_default() += n;
+                *merged.counters.entry("miri:processes".into()).or_default() += 1;
+                merged.evaluations += n;
+            }
+            (None, _) => inconclusive.push(format!("miri process {p} ({target}): watchdog")),
+            (Some(s), _) => {
+                // Miri's own diagnostic
+                let diag = err.lines().find(|l| l.starts_with("error")).unwrap_or("").to_string();
+                if diag.contains("Undefined Behavior") || diag.contains("data race") || diag.contains("memory leaked") {
+                    let frame = err.lines().find(|l| l.contains("/repo/")).unwrap_or("").trim().to_string();
+                    merged.violations.push(Violation { signature: format!("miri-diagnostic:{target}"), detail: format!("{diag} {frame}").chars().take(400).collect(), index: p as u64, witness: json!({"lane": "miri", "target": target, "seed": seed, "ops": ops, "stderr": err_path.display().to_string()}) });
+                } else {
+                    inconclusive.push(format!("miri process {p} ({target}) ended with {s}: {}", diag.chars().take(200).collect::<String>()));
+                }
+            }
+        }
+    }
+    *merged.counters.entry("miri:lane-wall-s".into()).or_default() += t0.elapsed().as_secs();
 }
 
 fn finish(check: &dyn Check, o: &Opts, merged: Report, mut inconclusive: Vec<String>, wall_s: f64) -> i32 {
